@@ -143,6 +143,12 @@ impl Tokenizer {
         self.err.as_ref()
     }
 
+    /// Name of the raw text element (script, style, textarea, ...) whose content the next token will be,
+    /// empty when the next token is regular markup
+    pub fn raw_tag(&self) -> &str {
+        self.raw_tag.as_str()
+    }
+
     pub fn allow_cdata(&mut self, allow_cdata: bool) {
         self.allow_cdata = allow_cdata;
     }
